@@ -41,6 +41,7 @@ func (r *c17e2eRec) OutgoingPrecommitProofs() chan<- tmconsensus.PrecommitSparse
 type c17e2eSnap struct {
 	updates  []tmelink.NetworkViewUpdate
 	prevotes []tmconsensus.PrevoteSparseProof
+	precs    []tmconsensus.PrecommitSparseProof
 	ok       bool
 }
 
@@ -79,7 +80,8 @@ func TestVerifC17E2E(t *testing.T) {
 				case <-rec.ph:
 				case p := <-rec.pv:
 					snap.prevotes = append(snap.prevotes, p)
-				case <-rec.pc:
+				case p := <-rec.pc:
+					snap.precs = append(snap.precs, p)
 				case <-ctx.Done():
 					return false
 				}
@@ -97,7 +99,8 @@ func TestVerifC17E2E(t *testing.T) {
 			case <-rec.ph:
 			case p := <-rec.pv:
 				snap.prevotes = append(snap.prevotes, p)
-			case <-rec.pc:
+			case p := <-rec.pc:
+				snap.precs = append(snap.precs, p)
 			case resp := <-barrier:
 				s := snap
 				if len(snap.updates) == 0 {
@@ -107,6 +110,7 @@ func TestVerifC17E2E(t *testing.T) {
 					s.ok = forward(tmelink.NetworkViewUpdate{})
 					s.updates = append([]tmelink.NetworkViewUpdate{}, snap.updates...)
 					s.prevotes = append([]tmconsensus.PrevoteSparseProof{}, snap.prevotes...)
+					s.precs = append([]tmconsensus.PrecommitSparseProof{}, snap.precs...)
 				}
 				resp <- s
 			}
@@ -198,6 +202,50 @@ func TestVerifC17E2E(t *testing.T) {
 	res["equivocating_vote_offered_after_third"] = offered(s3, hashX, sigX0)
 	res["updates_forwarded"] = len(s3.updates)
 	res["prevote_messages"] = len(s3.prevotes)
+
+	// a nil-voted round: 3 of 4 validators precommit nil at (1,0).  The environment of Chatty.tla says
+	// the mirror then hands over NilVotedRound (a clone of the old voting view) together with the new
+	// Voting and NextRound views; C17 wants the nil precommits offered.
+	pc := mfx.Precommitter(m)
+	r4 := pc.HandleProofs(ctx, 1, 0, map[string][]int{"": {0, 1, 2}})
+	res["nil_precommits_result"] = r4.String()
+	var s4 c17e2eSnap
+	nvrSeen, nvrShape := false, false
+	deadline := time.Now().Add(20 * time.Second)
+	for !nvrSeen && time.Now().Before(deadline) {
+		s4 = quiesce()
+		for _, u := range s4.updates {
+			if u.NilVotedRound != nil && u.NilVotedRound.Height == 1 && u.NilVotedRound.Round == 0 {
+				nvrSeen = true
+				nvrShape = u.Voting != nil && u.Voting.Height == 1 && u.Voting.Round == 1 &&
+					u.NextRound != nil && u.NextRound.Height == 1 && u.NextRound.Round == 2 &&
+					len(u.NilVotedRound.PrecommitProofs) > 0
+			}
+		}
+		if !nvrSeen {
+			time.Sleep(5 * time.Millisecond)
+		}
+	}
+	s4 = quiesce()
+	res["nil_voted_round_in_update"] = nvrSeen
+	res["nil_voted_round_update_has_voting_1_1_and_nextround_1_2"] = nvrShape
+	nOff := 0
+	for i := 0; i < 3; i++ {
+		sig := mfx.Fx.PrecommitSignature(ctx, vt(""), i)
+		for _, p := range s4.precs {
+			if p.Height != 1 || p.Round != 0 {
+				continue
+			}
+			for _, sp := range p.Proofs[""] {
+				if bytes.Equal(sp.Sig, sig) {
+					nOff++
+					goto NEXT
+				}
+			}
+		}
+	NEXT:
+	}
+	res["nil_precommits_offered"] = nOff
 	out.Emit(res)
 	_ = gcrypto.SparseSignature{}
 }
